@@ -114,11 +114,12 @@ type Options struct {
 	MaxInline     int
 	Unroll        int
 	NoPanicChecks bool
+	NoMerge       bool // disable the if-conversion of simple branches (merge.go)
 }
 
 func NewExec(w *World, cs *ContractSet, pre *Prelude) *Exec {
 	return &Exec{W: w, CS: cs, Sorts: NewSorts(), Prelude: pre, Lits: NewLiterals(),
-		Opts:    Options{MaxPaths: 20000, MaxInline: 4, Unroll: 2},
+		Opts:    Options{MaxPaths: 20000, MaxInline: 4, Unroll: 2, NoMerge: os.Getenv("VERIF_NOMERGE") != ""},
 		typeIDs: map[string]int{}, Inlined: map[string]bool{}, Havocs: map[string]bool{}, Assumed: map[string]bool{}}
 }
 
